@@ -162,3 +162,4 @@ pub mod g7rt;
 pub mod ps;
 pub mod mkdrv;
 pub mod g9rt;
+pub mod g5oracle;
